@@ -86,7 +86,7 @@ static ps_priv_t *alloc_ps_msg(const ps_priv_t *msg, ev_src_t *sub) {
     if (m) {
         memcpy(m, msg, sizeof(ps_priv_t));
         m->msg.sender = m_mem_ref((void *)m->msg.sender); // keep module alive until message is dispatched
-        m->sub = sub;
+        m->sub = m_mem_ref(sub); // keep subscription alive too: it may be removed while message is in flight
     }
     return m;
 }
@@ -100,6 +100,7 @@ static void ps_msg_dtor(void *data) {
     if (pubsub_msg->msg.sender) {
         m_mem_unref((void *)pubsub_msg->msg.sender);
     }
+    m_mem_unref(pubsub_msg->sub);
 }
 
 static void tell_subscribers(void *data, void *value) {
